@@ -1,5 +1,6 @@
 import PrysmVerif.Wire
 import PrysmVerif.Model.C05
+import PrysmVerif.Model.C01
 /-!
 # C03 / C05 — `Float` instantiation of the models and memoised (table) evaluation, shared by the two drivers (core Lean only)
 
@@ -18,12 +19,37 @@ def twoPi : Float := 6.283185307179586476925286766559
 def eF (t : Float) : C := ⟨Float.cos (twoPi * t), -(Float.sin (twoPi * t))⟩
 def eI (t : Float) : C := eF (-t)
 
-def getC (a : Array (Array C)) (j i : Nat) : C := (a.getD j #[]).getD i ⟨0, 0⟩
+def getC (a : Array (Array C)) (j i : Nat) : C := Model.C01.rd2 a j i
 
-/-- memoised evaluation of `Model.C03.mdft2`: rows first (`ary @ Ein`), then columns (`Eout @ …`) -/
+section generic
+variable {R V : Type} [Num R] [Num V]
+
+/-- memoised evaluation of `Model.C03.mdft2`: rows first (`ary @ Ein`), then columns (`Eout @ …`); generic in the scalars so
+that `Lemmas/C03Exec.lean` can prove `rd2 (table2G …) k l = mdft2 … k l` (the table the drivers print IS the model) -/
+def table2G (e : R → V) (m n M N : Nat) (αy αx sy sx : R) (norm : V) (f : Array (Array V)) : Array (Array V) :=
+  let rows := Model.C01.tab2 m N fun j l => mdft1 e n N αx sx (fun i => Model.C01.rd2 f j i) l
+  Model.C01.tab2 M N fun k l => norm * mdft1 e m M αy sy (fun j => Model.C01.rd2 rows j l) k
+
+/-- `Model.C03.fixedSampling` as a table -/
+def fixedTableG (e : R → V) (ofR : R → V) (sqrt : R → R) (m n M N : Nat) (dx z lam dxo shx shy : R) (f : Array (Array V)) :
+    Array (Array V) :=
+  let αy : R := axisAlpha (Num.ofInt (m : Int)) dx z lam dxo
+  let αx : R := axisAlpha (Num.ofInt (n : Int)) dx z lam dxo
+  table2G e m n M N αy αx (shiftSamples shy dxo) (shiftSamples shx dxo) (ofR (sqrt αy * sqrt αx)) f
+
+/-- `Model.C05.toFpmAndBack` as a table: forward table, mask product, return table -/
+def fpmTableG (e : R → V) (ofR : R → V) (sqrt : R → R) (m n My Mx : Nat) (dx efl lam fdx shx shy : R)
+    (mask f : Array (Array V)) : Array (Array V) :=
+  let atFpm := fixedTableG e ofR sqrt m n My Mx dx efl lam fdx shx shy f
+  let after := Model.C01.tab2 My Mx fun k l => Model.C01.rd2 atFpm k l * Model.C01.rd2 mask k l
+  let αy' : R := axisAlpha (Num.ofInt (My : Int)) fdx efl lam dx
+  let αx' : R := axisAlpha (Num.ofInt (Mx : Int)) fdx efl lam dx
+  table2G (fun t => e (-t)) My Mx m n αy' αx' (fpmBackShift shy dx fdx) (fpmBackShift shx dx fdx)
+    (ofR (sqrt αy' * sqrt αx')) after
+end generic
+
 def table2 (e : Float → C) (m n M N : Nat) (αy αx sy sx : Float) (norm : C) (f : Array (Array C)) : Array (Array C) :=
-  let rows := (Array.range m).map fun j => (Array.range N).map fun l => mdft1 e n N αx sx (fun i => getC f j i) l
-  (Array.range M).map fun k => (Array.range N).map fun l => norm * mdft1 e m M αy sy (fun j => getC rows j l) k
+  table2G e m n M N αy αx sy sx norm f
 
 def parseGrid (m n : Nat) (xs : List Float) : Array (Array C) :=
   let a := xs.toArray
@@ -37,10 +63,7 @@ def floats? (l : List String) : Option (List Float) := l.mapM parseFloatBits?
 
 /-- model of `focus_fixed_sampling` / `unfocus_fixed_sampling` as a table -/
 def fixedTable (inv : Bool) (m n M N : Nat) (dx z lam dxo shx shy : Float) (f : Array (Array C)) : Array (Array C) :=
-  let αy : Float := axisAlpha m.toFloat dx z lam dxo
-  let αx : Float := axisAlpha n.toFloat dx z lam dxo
-  table2 (if inv then eI else eF) m n M N αy αx (shiftSamples shy dxo) (shiftSamples shx dxo)
-    (Cx.ofReal (Float.sqrt αy * Float.sqrt αx)) f
+  fixedTableG (if inv then eI else eF) Cx.ofReal Float.sqrt m n M N dx z lam dxo shx shy f
 
 /-- one point straight from `Model.C03.fixedSampling` (no memoisation) -/
 def fixedPoint (inv : Bool) (m n M N : Nat) (dx z lam dxo shx shy : Float) (f : Array (Array C)) (k l : Nat) : C :=
@@ -52,14 +75,9 @@ def execTable (inv : Bool) (m n M N : Nat) (Qy Qx sx sy : Float) (f : Array (Arr
   let αx : Float := 1.0 / (n.toFloat * Qx)
   table2 (if inv then eI else eF) m n M N αy αx sy sx (Cx.ofReal (Float.sqrt αy * Float.sqrt αx)) f
 
-/-- model of `to_fpm_and_back` as a table: forward table, mask product, return table (constants as in `toFpmAndBack`) -/
+/-- model of `to_fpm_and_back` as a table -/
 def fpmTable (m n My Mx : Nat) (dx efl lam fdx shx shy : Float) (mask f : Array (Array C)) : Array (Array C) :=
-  let atFpm := fixedTable false m n My Mx dx efl lam fdx shx shy f
-  let after := (Array.range My).map fun k => (Array.range Mx).map fun l => getC atFpm k l * getC mask k l
-  let αy' : Float := axisAlpha My.toFloat fdx efl lam dx
-  let αx' : Float := axisAlpha Mx.toFloat fdx efl lam dx
-  table2 eI My Mx m n αy' αx' (fpmBackShift shy dx fdx) (fpmBackShift shx dx fdx)
-    (Cx.ofReal (Float.sqrt αy' * Float.sqrt αx')) after
+  fpmTableG eF Cx.ofReal Float.sqrt m n My Mx dx efl lam fdx shx shy mask f
 
 /-- one point straight from `Model.C05.toFpmAndBack` -/
 def fpmPoint (m n My Mx : Nat) (dx efl lam fdx shx shy : Float) (mask f : Array (Array C)) (j i : Nat) : C :=
